@@ -15,6 +15,7 @@
  */
 #pragma once
 
+#include <unifex/detail/verif_hooks.hpp>
 #include <unifex/bind_back.hpp>
 #include <unifex/continuations.hpp>
 #include <unifex/exception.hpp>
@@ -71,6 +72,7 @@ private:
     stream& stream_;
 
     void operator()() noexcept {
+      UNIFEX_VERIF_POINT(381);
       auto oldState = stream_.state_.load(std::memory_order_acquire);
       if (oldState == state::source_next_active) {
         // We may be racing with the next() operation completing on another
@@ -151,6 +153,7 @@ private:
       auto& strm = stream_;
       strm.nextOp_.destruct();
 
+      UNIFEX_VERIF_POINT(383);
       auto oldState = strm.state_.load(std::memory_order_acquire);
 
       if (oldState == state::source_next_active) {
@@ -368,6 +371,7 @@ private:
           , receiver_((Receiver2&&)receiver) {}
 
         void start() noexcept {
+          UNIFEX_VERIF_POINT(382);
           auto oldState = stream_.state_.load(std::memory_order_acquire);
           if (oldState == state::source_next_active_stream_stopped) {
             stream_.cleanupOp_ = this;
